@@ -22,6 +22,7 @@ ANCHORS = ["feature_model.py:Feature.__eq__", "feature_model.py:Feature.__hash__
            "feature_model.py:FeatureModel.__eq__", "feature_model.py:FeatureModel.__hash__",
            "feature_model.py:Feature.__lt__"]
 NSHARDS = 16
+CONTRACTS = ('eq',)   # ambient icontract contracts active in every shard of this check
 
 
 def plan(tier, seed):
@@ -298,6 +299,9 @@ def run_case(acc, source, spec, r):
 
 
 def run_shard(desc, acc):
+    if desc.get("shard") == 0:
+        from ..contracts_run import run_pinned_tests
+        run_pinned_tests(acc, ('eq-symmetric-hash',))
     for source, spec, r in cases(desc):
         run_case(acc, source, spec, r)
 
